@@ -29,7 +29,7 @@ KW_NAMES = ['Allow', 'Location', 'Etag', 'Vary', 'Xtest']
 DEFAULT_CT = 'text/html; charset=UTF-8'
 
 _clean = st.one_of(
-    st.sampled_from(['v', 'text/plain', 'a, b', 'é', 'ÿ', 'Ω', '日本', '\U0001F600', 'x' * 40, ' lead', 'trail ', '', 'a\tb', '\x1f', '\x7f', '\x85',
+    st.sampled_from(['v', 'text/plain', 'a, b', 'é', 'ÿ', 'Ω', 'Ã©', 'Â\xa0', 'â\x82¬', 'cafÃ©', 'Ã', 'Ã\x83Â©', '日本', '\U0001F600', 'x' * 40, ' lead', 'trail ', '', 'a\tb', '\x1f', '\x7f', '\x85',
                      ' ', '\x0b\x0c', 'Set-Cookie: a=b', '%0d%0a']),
     st.text(st.characters(exclude_categories=['Cs'], exclude_characters='\r\n\0'), max_size=12))
 
@@ -484,6 +484,14 @@ def run(ctx):
                         ops.append([e, name, ['str', s]])
                         ctx.guarded(check_case, {'kind': kind, 'status': 200, 'status_first': True, 'ops': ops})
         ctx.count('injection_grid')
+        # text whose Latin-1 bytes happen to be well-formed UTF-8 (it looks like mojibake, but it is what was set) through every entry point
+        for e in ['setitem', 'append', 'setdefault', 'content_type', 'ctor_dict', 'ctor_pairs', 'ctor_kw']:
+            for v in ['Ã©', 'Â\xa0', 'â\x82¬', 'cafÃ©', 'Ã\x83Â©', 'é', 'Ã']:
+                for kind in ('Response', 'HTTPResponse', 'wsgi_response', 'wsgi_returned'):
+                    if e.startswith('ctor_') and kind in ('Response', 'wsgi_response'):
+                        continue
+                    ctx.guarded(check_case, {'kind': kind, 'status': 200, 'status_first': True, 'ops': [[e, 'Allow' if e == 'ctor_kw' else 'X-Test', ['str', v]]]})
+        ctx.count('utf8_lookalike_grid')
         # set_cookie with every injection shape, plain / quoted / half-quoted, next to a clean header
         for s in shapes + ['abc\r\nX-Injected:1', 'abc\0', 'a\r\nSet-Cookie:z=1']:
             for q in ('%s', '"%s"', '"%s', '%s"', "'%s'"):
